@@ -121,13 +121,24 @@ struct C16 : Property {
       }
       lists.push_back(l);
     }
+    // output-buffer sweep for coap_split_path / coap_split_query: segment lengths on both sides of the option-header forms
+    json splits = json::array();
+    int ns = (int)r.range(1, 3);
+    for (int i = 0; i < ns; i++) {
+      json lens = json::array();
+      int k = (int)r.range(1, 3);
+      static const int L[] = {0, 1, 2, 11, 12, 13, 14, 100, 267, 268, 269, 270, 300, 777};
+      for (int q = 0; q < k; q++) lens.push_back(r.chance(0.8) ? L[r.below(14)] : (int)r.range(0, 400));
+      splits.push_back({{"query", r.chance(0.4)}, {"lens", lens}, {"enc", r.chance(0.25)}});
+    }
     p["config"] = json::object();
     p["ops"] = ops;
     p["lists"] = lists;
+    p["splits"] = splits;
     p["faults"] = json::array();
     return p;
   }
-  std::vector<std::string> shrink_keys() override { return {"ops", "lists"}; }
+  std::vector<std::string> shrink_keys() override { return {"ops", "lists", "splits"}; }
 
   void execute(const json &plan, RunResult &res, bool verbose) override {
     C16World cw;
@@ -296,6 +307,55 @@ struct C16 : Property {
       if (ps) coap_delete_string(ps);
       coap_delete_pdu(p);
       li++;
+    }
+    // "all output buffer sizes": every size from 0 to what the full result needs + 3, each in an exact-size heap block (ASan sees one
+    // byte too many); whatever is returned must lie inside the buffer and be a subsequence of the full result
+    for (auto &sp : plan.value("splits", json::array())) {
+      bool isq = sp.value("query", false), enc = sp.value("enc", false);
+      std::string text;
+      int si = 0;
+      for (auto &jl : sp["lens"]) {
+        if (si) text += isq ? '&' : '/';
+        int len = std::max(0, std::min(1000, jl.get<int>()));
+        for (int z = 0; z < len; z++) { if (enc && z % 7 == 3) text += strfmt("%%%02X", 0x61 + (si + z) % 26); else text += (char)('a' + (si * 5 + z) % 26); }
+        si++;
+      }
+      Exact in(S(text));
+      World::AsNode as(0);
+      std::vector<unsigned char> fullbuf(text.size() + 64 + 4 * (size_t)si);
+      size_t fl = fullbuf.size();
+      int nfull = isq ? coap_split_query(in.p, in.n, fullbuf.data(), &fl) : coap_split_path(in.p, in.n, fullbuf.data(), &fl);
+      std::vector<Bytes> full;
+      { const unsigned char *q = fullbuf.data(); for (int k = 0; k < nfull; k++) { size_t sz = coap_opt_size(q); full.push_back(Bytes(q, q + sz)); q += sz; } }
+      for (size_t k = 0; k <= fl + 3; k++) {
+        unsigned char *ob = (unsigned char *)malloc(k ? k : 1);
+        size_t bl = k;
+        int n = isq ? coap_split_query(in.p, in.n, ob, &bl) : coap_split_path(in.p, in.n, ob, &bl);
+        w.count("probe.split_output_sizes_swept");
+        std::string ctx2 = strfmt("%s of %zu bytes (%d segments) into a %zu-byte buffer", isq ? "coap_split_query" : "coap_split_path", text.size(), si, k);
+        if (bl > k) res.violate("R10.split_buffer", "used_exceeds_buffer", ctx2 + strfmt(": reports %zu bytes used", bl));
+        else if (n < 0 || n > nfull) res.violate("R10.split_buffer", "count", ctx2 + strfmt(": returns %d options, the full result has %d", n, nfull));
+        else {
+          size_t off = 0, fi = 0;
+          bool okseq = true;
+          for (int j = 0; j < n && okseq; j++) {
+            if (off >= bl) { okseq = false; break; }
+            size_t room = bl - off, need = 1;
+            // header bytes must lie inside the used region before coap_opt_size may look at them
+            if ((ob[off] & 0x0f) == 13) need = 2; else if ((ob[off] & 0x0f) == 14) need = 3;
+            if (room < need) { okseq = false; break; }
+            size_t sz = coap_opt_size(ob + off);
+            if (sz == 0 || sz > room) { okseq = false; break; }
+            Bytes o(ob + off, ob + off + sz);
+            while (fi < full.size() && full[fi] != o) fi++;
+            if (fi == full.size()) okseq = false; else fi++;
+            off += sz;
+          }
+          if (!okseq || off != bl) res.violate("R10.split_buffer", "not_a_subsequence", ctx2 + strfmt(": the %d options returned (%zu bytes) are not options of the full result in order", n, bl));
+          if (k >= fl && n != nfull) res.violate("R10.split_buffer", "enough_room_but_incomplete", ctx2 + strfmt(": %d of %d options although the full result needs %zu bytes", n, nfull, fl));
+        }
+        free(ob);
+      }
     }
     res.nontrivial = saw_reject && saw_dot && saw_pct;
     {
